@@ -741,6 +741,9 @@ func (p *Program) escapesToExternal(mi *ssa.MakeInterface) bool {
 	return false
 }
 
+var reflectivelyCalled = map[string]bool{"MarshalJSON": true, "UnmarshalJSON": true, "MarshalText": true, "UnmarshalText": true,
+	"Format": true, "GoString": true}
+
 func (p *Program) computeReachability() {
 	var libRoots, httpRoots, initRoots []*ssa.Function
 	if f := p.Func("model.(*DecisionMaker).MakeDecision"); f != nil {
@@ -753,6 +756,10 @@ func (p *Program) computeReachability() {
 	for _, f := range p.Funcs {
 		if f.Signature.Recv() != nil && f.Parent() == nil && (f.Name() == "String" || f.Name() == "Error") &&
 			f.Signature.Params().Len() == 0 && f.Pkg != nil && f.Pkg != p.Main {
+			libRoots = append(libRoots, f)
+		}
+		// codec and formatter methods are invoked by encoding/json, mapstructure and fmt through reflection
+		if f.Signature.Recv() != nil && f.Parent() == nil && f.Pkg != nil && f.Pkg != p.Main && reflectivelyCalled[f.Name()] {
 			libRoots = append(libRoots, f)
 		}
 	}
